@@ -38,7 +38,7 @@ var opNeedsDevices = map[string]bool{"report": true, "equivocate": true, "authCo
 var reachableUnregistered = map[string]bool{"udp.ready": true, "udp.done": true, "migrate.beforeLock": true, "wt.afterList": true,
 	"sync.ready": true, "sync.afterCopy": true, "auth.ready": true, "auth.afterSave": true, "as.get.ready": true, "as.post.ready": true,
 	"stats.ready": true, "stats.afterUnlock": true, "equipment.ready": true, "order.ready": true, "register.ready": true,
-	"recent.ready": true, "archive.beforeFile": true}
+	"recent.ready": true, "archive.beforeFile": true, "equipment.afterUnlock": true, "as.get.afterUnlock": true}
 
 // admissible implements the table of DESIGN §2.4.
 func admissible(site, op string) bool {
@@ -225,7 +225,7 @@ func (w *cw) trigger(site string, variant int, yUDP uint64) func() string {
 	case "auth":
 		return w.prep("authNew")
 	case "as":
-		if site == "as.get.ready" {
+		if strings.HasPrefix(site, "as.get.") {
 			return w.prep("asGet")
 		}
 		return w.prep("srvAuth")
